@@ -1014,3 +1014,43 @@ Definition sk_register : list ev :=
    Wr "entries";
    IfE;
    LoopE].
+
+Definition sk_fs_add : list ev :=
+  [IfB;
+   Call "restrict";
+   Else;
+   IfE;
+   Call "register"].
+
+Definition sk_resolve_from_tag : list ev :=
+  [Rd "search_tags";
+   LoopB;
+   Call "resolve_from_id";
+   Call "append";
+   LoopE;
+   Ret].
+
+Definition sk_resolve_from_id : list ev :=
+  [Rd "simple";
+   IfB;
+   Rd "simple";
+   Ret;
+   Else;
+   IfE;
+   Rd "sequence";
+   Ret].
+
+Definition sk_source_id_to_path : list ev :=
+  [TryB;
+   Rd "source_ids";
+   Ret;
+   Handler "KeyError";
+   Rd "source_ids";
+   TryE;
+   Ret].
+
+Definition sk_collection_init : list ev :=
+  [Call "reset"].
+
+Definition sk_collection_reset : list ev :=
+  [Wr "by_path"].
